@@ -1,6 +1,7 @@
 package main
 
 import (
+	"strconv"
 	"go/types"
 	"fmt"
 	"sort"
@@ -236,11 +237,51 @@ func c01r3(r *R) {
 					o.Check(hasGuard(gs, w), "the %s element of %s is appended under %v, missing %s", form.kind, l.Field, gs, w)
 				}
 			}
+			// what a literal says about the list's length, however it is spelled (`len > 1`, `len-1 > 0`, `len-1 != -1`, …)
+			lenFact := func(g string) (string, int, bool) {
+				pos, a, op, b, okp := parseRelLit(g)
+				if !okp {
+					return "", 0, false
+				}
+				flip := map[string]string{"==": "==", "!=": "!=", "<": ">", ">": "<", "<=": ">=", ">=": "<="}
+				neg := map[string]string{"==": "!=", "!=": "==", "<": ">=", ">": "<=", "<=": ">", ">=": "<"}
+				k, err := strconv.Atoi(b)
+				if err != nil {
+					if ka, errA := strconv.Atoi(a); errA == nil {
+						a, k, op = b, ka, flip[op]
+					} else {
+						return "", 0, false
+					}
+				}
+				if !pos {
+					op = neg[op]
+				}
+				ln := "builtin.len(p0." + l.Field + ")"
+				switch a {
+				case ln:
+				case "(" + ln + " - 1)":
+					k++
+				default:
+					return "", 0, false
+				}
+				switch op {
+				case "<=":
+					op, k = "<", k+1
+				case ">=":
+					op, k = ">", k-1
+				}
+				return op, k, true
+			}
 			if len(oneOf) > 0 {
 				okOne := false
 				for _, w := range oneOf {
 					if hasGuard(gs, w) {
 						okOne = true
+					}
+				}
+				for _, g := range gs {
+					if op, k, okf := lenFact(g); okf && k == 0 && (op == ">" || op == "!=") {
+						okOne = true // the list is not empty
 					}
 				}
 				o.Check(okOne, "the last element of %s is appended under %v, missing the non-empty test (%s)", l.Field, gs, oneOf[0])
@@ -250,6 +291,15 @@ func c01r3(r *R) {
 				for _, w := range append(append(append([]string{}, want...), optional...), oneOf...) {
 					if g == canonStr(w) {
 						ok = true
+					}
+				}
+				if op, k, okf := lenFact(g); !ok && okf {
+					if form.kind == "loop" {
+						// implied by the loop's own bound (an index below len-1 exists only when len >= 2)
+						ok = (op == ">" || op == "!=") && k <= 1
+					} else {
+						// non-empty, or which side of the `more than one element` split this is
+						ok = ((op == ">" || op == "!=") && k == 0) || (op == ">" && k == 1) || (op == "<" && k == 2)
 					}
 				}
 				if !ok {
